@@ -144,7 +144,7 @@ uint32_t igris_atou32(const char *buf, uint8_t base, char **end)
     }
 
     if (end)
-        *end = (char *)buf - 1;
+        *end = (char *)buf;
 
     return res;
 }
@@ -160,7 +160,7 @@ uint64_t igris_atou64(const char *buf, uint8_t base, char **end)
     }
 
     if (end)
-        *end = (char *)buf - 1;
+        *end = (char *)buf;
 
     return res;
 }
